@@ -111,7 +111,7 @@ def gen_world(t):
         if spec is not None:
             return spec
     return worlds.gen_syn(t, allow_m=False, max_pts=120, max_structs=3, max_vars=3,
-                          pools=["dyadic", "decimal", "normalised", "tie"])
+                          pools=["dyadic", "decimal", "normalised", "tie", "tiny", "tiny", "mixed"])
 
 
 def gen_script(t, U, total):
